@@ -99,58 +99,7 @@ def ens_posts_nothing(job, out, G):
 from bert_e.exceptions import ApprovalRequired  # noqa: E402
 
 
-def base_env():
-    env = Env()
-    intrinsics.install(env)
-    env.add_class('Settings', kind='obj', pyclass='bert_e.lib.settings_dict:SettingsDict', fields={
-        'required_peer_approvals': 'int', 'required_leader_approvals': 'int',
-        'need_author_approval': 'bool', 'approve': 'bool', 'unanimity': 'bool',
-        'bypass_peer_approval': 'bool', 'bypass_leader_approval': 'bool',
-        'bypass_author_approval': 'bool', 'bypass_build_status': 'bool',
-        'robot': 'str', 'project_leaders': 'set[str]', 'pr_author_options': 'AuthorOptions',
-        'build_key': 'str',
-    })
-    env.add_class('AuthorOptions', kind='obj', fields={})
-    env.add_class('PullRequest', kind='obj', fields={'author': 'str', 'id': 'int'})
-    env.add_class('PullRequestJob', kind='obj', pyclass='bert_e.job:PullRequestJob', fields={
-        'settings': 'Settings', 'pull_request': 'PullRequest', 'active_options': 'opaque',
-    })
-
-    @env.model('Settings', '__getitem__', trusted='SettingsDict item access = attribute access (ChainMap lookup)')
-    def settings_getitem(I, self, key):
-        return I.get_attr(self, key)
-
-    @env.model('AuthorOptions', 'get',
-               trusted='pr_author_options.get(author, {}) is either {} or a str->bool mapping')
-    def ao_get(I, self, key, default=None):
-        f = I.heap[self.oid]
-        if '@get' not in f:
-            f['@get'] = (I.fresh_term('pr_author_options.has_author', smt.BOOL),
-                         SMapV(I.fresh_term('author_bypass.dom', smt.SetS(smt.STR)),
-                               I.fresh_term('author_bypass.val', smt.ArrS(smt.STR, smt.BOOL)),
-                               ('str',), ('bool',)))
-        present, m = f['@get']
-        return I.ite_val(present, m, default)
-
-    def host_set(name):
-        def model(I, self):
-            f = I.heap[self.oid]
-            k = '@' + name
-            if k not in f:
-                f[k] = I.fresh_term('pull_request.%s' % name, smt.SetS(smt.STR))
-            return I.alloc_set(SSetV(f[k], ('str',)))
-        return model
-    for n in ('get_approvals', 'get_participants', 'get_change_requests'):
-        env.model('PullRequest', n, trusted='git host review data: an arbitrary finite set of user '
-                                            'handles, constant during one evaluation')(host_set(n))
-    env.allow_inline('bert_e.workflow.gitwaterflow.utils:bypass_peer_approval',
-                     'bert_e.workflow.gitwaterflow.utils:bypass_leader_approval',
-                     'bert_e.workflow.gitwaterflow.utils:bypass_author_approval',
-                     'bert_e.workflow.gitwaterflow.utils:bypass_build_status',
-                     'bert_e.job:PullRequestJob.author_bypass')
-    env.native.add(locals)
-    env.fn_models[locals] = lambda I: SOpaque(I.fresh_term('locals()', smt.REF, False), 'locals')
-    return env
+from specs.common import base_env  # noqa: E402
 
 
 def setup(I, args):
